@@ -246,6 +246,9 @@ def judge_long(res, prop, runs, ranges=True):
 
 def monitor(res, prop, kind, cases, tier, formula, what):
     """impl > spec: validate the recorded traces with TLC against a monitor specification"""
+    # (the inputs of tens of kilobytes are judged by the predicates only: a trace of half a million events is not
+    # what TLC's sequences are made for - 20 minutes for four of them)
+    cases = [c for c in cases if len(c.inp) <= 20000]
     bad, ev, st = traces.validate_cases(kind, cases, os.path.join(vlib.WORK, tier, "traces"), prop)
     res.coverage["traces_validated_against_impl"] = res.coverage.get("traces_validated_against_impl", 0) + st["traces"]
     res.coverage.setdefault("monitors", {})[traces.MONITORS[kind]] = {
@@ -261,7 +264,7 @@ def monitor(res, prop, kind, cases, tier, formula, what):
 # ---------------------------------------------------------------------------------------------- C02
 def check_C02(tier, seed, replay):
     res, runs, cases = generic(
-        "C02", ["fields", "ws", "rand"], tier, seed, replay, [lambda p, c: None if c.crashed else props.p_tree(p, c)],
+        "C02", ["fields", "ws", "rand", "names"], tier, seed, replay, [lambda p, c: None if c.crashed else props.p_tree(p, c)],
         "field-plumbing shapes (every depth-1 tree over field atoms, sampled deeper ones, hand-written shapes, "
         "override forms) x all inputs up to the bound; non-trivial = accepted input whose tree holds a match",
         lambda c: c.exp["ok"] and c.inp != [],
